@@ -38,13 +38,13 @@ type c13Prog struct {
 }
 
 func c13Pick[T any](rt *rapid.T, pool []T, label string) T {
-	return pool[rapid.IntRange(0, len(pool)-1).Draw(rt, label)]
+	return pool[gInt(rt, 0, len(pool)-1, label)]
 }
 
-func c13Maybe(rt *rapid.T, p int) bool { return rapid.IntRange(0, 99).Draw(rt, "maybe") < p }
+func c13Maybe(rt *rapid.T, p int) bool { return gInt(rt, 0, 99, "maybe") < p }
 
 func c13Any(rt *rapid.T, depth int) any {
-	switch rapid.IntRange(0, 9).Draw(rt, "anyk") {
+	switch gInt(rt, 0, 9, "anyk") {
 	case 0:
 		return nil
 	case 1:
@@ -57,7 +57,7 @@ func c13Any(rt *rapid.T, depth int) any {
 		if depth > 2 {
 			return []any{}
 		}
-		n := rapid.IntRange(0, 3).Draw(rt, "n")
+		n := gInt(rt, 0, 3, "n")
 		arr := make([]any, n)
 		for i := range arr {
 			arr[i] = c13Any(rt, depth+1)
@@ -274,7 +274,7 @@ func c13Msg(rt *rapid.T) (string, string) {
 			b["sub"] = sub
 		}
 		if c13Maybe(rt, 30) {
-			n := rapid.IntRange(0, 3).Draw(rt, "ntags")
+			n := gInt(rt, 0, 3, "ntags")
 			tags := make([]any, n)
 			for i := range tags {
 				tags[i] = c13Pick(rt, c13Strings, "tag")
@@ -290,7 +290,7 @@ func c13Msg(rt *rapid.T) (string, string) {
 		}
 		b["what"] = c13Pick(rt, []string{"", "msg", "topic", "sub", "user", "cred", "nonsense", "MSG"}, "what")
 		if c13Maybe(rt, 60) {
-			n := rapid.IntRange(0, 3).Draw(rt, "nr")
+			n := gInt(rt, 0, 3, "nr")
 			rs := make([]any, n)
 			for i := range rs {
 				r := map[string]any{}
@@ -366,7 +366,7 @@ func c13Gen(rt *rapid.T) c13Prog {
 	}
 	// slot 0 is the bystander: user 3, whom no generated message can name.
 	p.Sess = []int{3}
-	ns := rapid.IntRange(1, 3).Draw(rt, "nsess")
+	ns := gInt(rt, 1, 3, "nsess")
 	for i := 0; i < ns; i++ {
 		p.Sess = append(p.Sess, c13Pick(rt, []int{0, 0, 1, 1, 2, -1, -2}, "sessuser"))
 	}
@@ -384,9 +384,9 @@ func c13Gen(rt *rapid.T) c13Prog {
 			p.Ops = append(p.Ops, wOp{K: "pub", S: 1, T: "g0"}, wOp{K: "pub", S: 1, T: "g0"})
 		}
 	}
-	n := rapid.IntRange(1, 12).Draw(rt, "nops")
+	n := gInt(rt, 1, 12, "nops")
 	for i := 0; i < n; i++ {
-		s := rapid.IntRange(1, len(p.Sess)-1).Draw(rt, "s")
+		s := gInt(rt, 1, len(p.Sess)-1, "s")
 		switch {
 		case c13Maybe(rt, 8):
 			p.Ops = append(p.Ops, wOp{K: "raw", S: s, A: c13Pick(rt, c13RawPool, "raw"), B: "raw"})
